@@ -276,7 +276,9 @@ class Unit:
             else:
                 body = body[:bpos].rstrip() + '\n' + txt + '        ' + body[bpos:]
         body = body.replace('/*@LOOPSPEC*/', '')
-        for (anchor, ins, where) in splices or []:
+        for sp in splices or []:
+            (anchor, ins, where) = sp[:3]
+            optional = len(sp) > 3 and sp[3] == 'opt'
             if anchor == '@END':
                 kk = body.rstrip().rfind('}')
                 body = body[:kk] + ins + '\n' + body[kk:]
@@ -286,6 +288,9 @@ class Unit:
                 body = body[:kk + 1] + '\n' + ins + '\n' + body[kk + 1:]
                 continue
             cnt = body.count(anchor)
+            if cnt == 0 and optional:
+                # proof-bookkeeping splice whose anchor is gone: skip it; the obligations it supported then fail on their own
+                continue
             if cnt != 1:
                 raise LostAnchor('%s: splice anchor %r occurs %d times' % (qname, anchor, cnt))
             if where == 'before':
